@@ -20,19 +20,26 @@ Proof. exact select_none. Qed.
 Print Assumptions C06_no_rule_iff_none_matches.
 
 (* Where no rule applies the glyphs pass through unchanged. *)
-Theorem C06_pass_through : forall adv rules fuel l i, (forall j r, In r rules -> rule_matches r l j = false) -> run_pass adv fuel rules l i = l.
+Theorem C06_pass_through : forall adv positioning rules fuel l i, (forall j r, In r rules -> rule_matches r l j = false) -> run_pass adv positioning fuel rules l i = l.
 Proof. exact pass_through. Qed.
 Print Assumptions C06_pass_through.
 
 (* The pass terminates: length + 1 steps always suffice (more fuel changes nothing). *)
-Theorem C06_pass_terminates : forall adv rules extra fuel l i, (length l - i < fuel)%nat -> run_pass adv (fuel + extra) rules l i = run_pass adv fuel rules l i.
+Theorem C06_pass_terminates : forall adv positioning rules extra fuel l i, (length l - i < fuel)%nat ->
+  run_pass adv positioning (fuel + extra) rules l i = run_pass adv positioning fuel rules l i.
 Proof. exact run_pass_fuel_enough. Qed.
 Print Assumptions C06_pass_terminates.
 
 (* Passes run in font order over the previous pass's output. *)
-Theorem C06_passes_compose : forall adv p1 p2 l, run_passes adv (p1 ++ p2) l = run_passes adv p2 (run_passes adv p1 l).
+Theorem C06_passes_compose : forall adv p1 p2 k ns l,
+  run_passes_from adv k ns (p1 ++ p2) l = run_passes_from adv (k + length p1) ns p2 (run_passes_from adv k ns p1 l).
 Proof. exact run_passes_app. Qed.
 Print Assumptions C06_passes_compose.
+
+(* A positioning pass changes attributes and attachments only: the number of slots stays. *)
+Theorem C06_positioning_keeps_length : forall adv rules fuel l i, length (run_pass adv true fuel rules l i) = length l.
+Proof. exact positioning_keeps_length. Qed.
+Print Assumptions C06_positioning_keeps_length.
 
 (* non-vacuity: "ab" -> c (deleting b), "d" -> a inserted before it with advance 1234; the longer rule wins over the shorter *)
 Example C06_example :
@@ -41,6 +48,9 @@ Example C06_example :
   let r1 := mkrule 0 [[67]; [68]]%N [[APutGlyph 69]; [ADelete]] None in
   let r2 := mkrule 0 [[70]]%N [[AInsert 67; ASetAdv 1234]] None in
   let r3 := mkrule 0 [[67]]%N [[APutGlyph 71]] (Some (mkcon 0 CLt 1000)) in
-  map s_gid (run_passes adv [[r3; r1; r2]] (map sl [67; 68; 70; 67; 67; 68]%N)) = [69; 67; 70; 71; 69]%N
-  /\ origins (run_passes adv [[r3; r1; r2]] (map sl [67; 68; 70]%N)) 0 = [0; 462; 924]%Z.
-Proof. vm_compute. split; reflexivity. Qed.
+  map s_gid (run_passes adv 1 [[r3; r1; r2]] (map sl [67; 68; 70; 67; 67; 68]%N)) = [69; 67; 70; 71; 69]%N
+  /\ origins (run_passes adv 1 [[r3; r1; r2]] (map sl [67; 68; 70]%N)) 0 = [0; 462; 924]%Z
+  (* a positioning pass: the second glyph attaches to the first at (100, 300) with its own point (10, 20) *)
+  /\ snd (positions (run_passes adv 0 [[mkrule 0 [[67]; [68]]%N [[]; [AAttach (-1); AAttPt 100 300; AWithPt 10 20]] None]] (map sl [67; 68; 70]%N)))
+     = [(0%N, (0, 0)); (1%N, (90, 280)); (2%N, (552, 0))]%Z.
+Proof. vm_compute. repeat split. Qed.
